@@ -12,6 +12,7 @@ pub mod c10;
 pub mod c13;
 pub mod c14;
 pub mod c15;
+pub mod c16;
 
 pub struct Prop {
     pub id: &'static str,
@@ -32,5 +33,6 @@ pub fn all() -> Vec<Prop> {
         Prop { id: "C13", run: c13::run, replay: c13::replay },
         Prop { id: "C14", run: c14::run, replay: c14::replay },
         Prop { id: "C15", run: c15::run, replay: c15::replay },
+        Prop { id: "C16", run: c16::run, replay: c16::replay },
     ]
 }
